@@ -56,7 +56,7 @@ ASSUMPTIONS = [
 ]
 COMPONENTS = {
     "real": ["whole library: lexer, parser, environment, query, segments, selectors, filter evaluator, built-in functions, regex"],
-    "stub": ["thread scheduling (baton scheduler over real threads, sys.settrace pre-emption)", "iterator scheduling (harness)", "user function extensions (probes)", "random.* (SimRandom, pinned)"],
+    "stub": ["thread scheduling (baton scheduler over real threads, pre-emption at sys.monitoring line/instruction events)", "iterator scheduling (harness)", "user function extensions (probes)", "random.* (SimRandom, pinned)"],
 }
 
 
